@@ -519,3 +519,14 @@ Proof.
     + rewrite Hf. rewrite (H4 h eq_refl eq_refl). reflexivity.
   - destruct Hf as (-> & -> & ->). reflexivity.
 Qed.
+
+(* the same with the two facts stated for all inputs *)
+Theorem parse_is_split :
+  forall (Hip4 : forall h, parse_ip4 h = if matchb Rfc3986.IPv4address h then Some (ip4_value h) else None)
+         (Hip6 : forall s u h, parse s = POk u -> hostText u = Some h -> ip6 u <> None -> ip6_bytes h = ip6_value h),
+  forall s u, parse s = POk u -> u = split_spec s.
+Proof.
+  intros Hip4 Hip6 s u H. apply (parse_split_given_addr s u H).
+  - intros h _ _. apply Hip4.
+  - intros h Eh E6. exact (Hip6 s u h H Eh E6).
+Qed.
